@@ -2,8 +2,8 @@
    returns with part of [rd] still unread, then run on [rd ++ suf] it returns the same value, the same session (log
    included) and the unread part followed by [suf] -- for every suffix.  Lifted to the block loop: the rendering of the
    first k blocks of a document is independent of everything after them, provided the k-th block ends before the end
-   of the input (an unterminated block, or a block ending exactly at the end of input, may of course go on).
-   List blocks are not covered: the statement assumes that the steps taken are line blocks and delimited blocks. *)
+   of the input (an unterminated block, a list, or a block ending exactly at the end of input, may of course go on).
+   All block kinds are covered: line blocks, delimited blocks (containers included) and the list fixpoint. *)
 From Rimu Require Import Base Unicode Regex RegexAnalysis RegexParse Str Types Tables Guards State Inline Block.
 From Coq Require Import Lia.
 Local Open Scope monad_scope.
@@ -173,6 +173,180 @@ Proof.
   apply dblock_loop_suffix; assumption.
 Qed.
 
+(* ---- lists ---- *)
+Lemma cba_nil n blanks acc s : consumeBlockAttributes fuel (S n) [] blanks acc s = Ok (((-1)%Z, acc, []), s).
+Proof. reflexivity. Qed.
+
+Lemma cba_nil_reader n blanks acc s b o rd1 s' :
+  consumeBlockAttributes fuel n [] blanks acc s = Ok ((b, o, rd1), s') -> rd1 = [].
+Proof. destruct n; [discriminate|]. rewrite cba_nil. intros H. inversion H. reflexivity. Qed.
+
+Lemma cba_suffix : forall n rd blanks acc b o rd1 s s',
+  consumeBlockAttributes fuel n rd blanks acc s = Ok ((b, o, rd1), s') -> rd1 <> [] ->
+  consumeBlockAttributes fuel n (rd ++ suf) blanks acc s = Ok ((b, o, rd1 ++ suf), s').
+Proof.
+  induction n as [|n IH]; intros rd blanks acc b o rd1 s s' H Hne; [discriminate|].
+  destruct rd as [|c r]; [rewrite cba_nil in H; inversion H; subst; congruence|].
+  cbn [consumeBlockAttributes app] in *.
+  apply bind_Ok in H as ([ob rd'] & s1 & Hl & H). unfold lineblocks_render in *.
+  destruct ob as [out|].
+  - assert (Hrd' : rd' <> []) by (intros ->; apply cba_nil_reader in H; congruence).
+    rewrite (bind_eq _ _ _ _ _ (lineblocks_loop_suffix _ _ _ _ _ _ _ _ Hl Hrd')). apply IH; assumption.
+  - pose proof (lineblocks_loop_none_ne _ _ _ _ _ _ Hl ltac:(discriminate)) as Hrd'.
+    rewrite (bind_eq _ _ _ _ _ (lineblocks_loop_suffix _ _ _ _ _ _ _ _ Hl Hrd')).
+    destruct rd' as [|cur rest]; [congruence|]. cbn [app].
+    destruct (nonempty cur).
+    + inversion H; subst. reflexivity.
+    + assert (Hrest : rest <> []) by (intros ->; apply cba_nil_reader in H; congruence).
+      apply IH; assumption.
+Qed.
+
+Lemma itemLoop_nil_reader n il at' dn s nx rd' il' at'' s' :
+  itemLoop fuel doc n [] il at' dn s = Ok ((nx, rd', il', at''), s') -> rd' = [].
+Proof.
+  destruct n as [|n]; [discriminate|]. cbn [itemLoop]. destruct n as [|n]; [discriminate|].
+  unfold bind at 1. rewrite cba_nil. cbn. intros H. inversion H. reflexivity.
+Qed.
+
+Lemma cba_eof : forall n rd blanks acc b o rd1 s s',
+  consumeBlockAttributes fuel n rd blanks acc s = Ok ((b, o, rd1), s') -> rd1 = [] -> b = (-1)%Z.
+Proof.
+  induction n as [|n IH]; intros rd blanks acc b o rd1 s s' H Hnil; [discriminate|].
+  destruct rd as [|c r]; [rewrite cba_nil in H; inversion H; reflexivity|].
+  cbn [consumeBlockAttributes] in H. apply bind_Ok in H as ([ob rd'] & s1 & Hl & H).
+  destruct ob as [out|]; [eapply IH; eauto|].
+  destruct rd' as [|cur rest]; [discriminate|]. destruct (nonempty cur); [inversion H; subst; discriminate|eapply IH; eauto].
+Qed.
+
+Lemma renderListItem_nil_reader n it s o nn rd' s' :
+  renderListItem fuel doc n it [] s = Ok ((o, nn, rd'), s') -> rd' = [].
+Proof.
+  destruct n as [|n]; [discriminate|]. cbn [renderListItem]. intros H1.
+  apply bind_Ok in H1 as (hd & s4 & _ & H1). apply bind_Ok in H1 as (io & s5 & _ & H1).
+  destruct (item_text it); [|discriminate]. apply bind_Ok in H1 as ([[[n4 rd4] il4] at4] & s6 & H6 & H1). cbv beta iota zeta in H1.
+  cbn [tl] in H6. apply itemLoop_nil_reader in H6. subst rd4. apply bind_Ok in H1 as (tx & s7 & _ & H1). inversion H1; subst. reflexivity.
+Qed.
+
+Lemma renderItems_nil_reader : forall k it o nn rd' s s',
+  renderItems fuel doc k it [] s = Ok ((o, nn, rd'), s') -> rd' = [].
+Proof.
+  induction k as [|k IHk]; intros it o nn rd' s s' Hk; [discriminate|]. cbn [renderItems] in Hk.
+  apply bind_Ok in Hk as ([[o1 n1] rd1] & s1 & H1 & Hk). cbv beta iota zeta in Hk.
+  apply renderListItem_nil_reader in H1. subst rd1.
+  destruct n1 as [n1|]; [destruct (str_eqb (it_id n1) (it_id it))|].
+  - apply bind_Ok in Hk as ([[o5 n5] rd5] & s8 & H8 & Hk). cbv beta iota zeta in Hk. inversion Hk; subst. eapply IHk; eauto.
+  - inversion Hk; reflexivity.
+  - inversion Hk; reflexivity.
+Qed.
+
+Definition Q_list (n : nat) := forall it rd o nn rd' s s',
+  renderList fuel doc n it rd s = Ok ((o, nn, rd'), s') -> rd' <> [] ->
+  renderList fuel doc n it (rd ++ suf) s = Ok ((o, nn, rd' ++ suf), s').
+Definition Q_items (n : nat) := forall it rd o nn rd' s s',
+  renderItems fuel doc n it rd s = Ok ((o, nn, rd'), s') -> rd' <> [] ->
+  renderItems fuel doc n it (rd ++ suf) s = Ok ((o, nn, rd' ++ suf), s').
+Definition Q_item (n : nat) := forall it rd o nn rd' s s',
+  renderListItem fuel doc n it rd s = Ok ((o, nn, rd'), s') -> rd' <> [] ->
+  renderListItem fuel doc n it (rd ++ suf) s = Ok ((o, nn, rd' ++ suf), s').
+Definition Q_loop (n : nat) := forall rd il at' dn nx rd' il' at'' s s',
+  itemLoop fuel doc n rd il at' dn s = Ok ((nx, rd', il', at''), s') -> rd' <> [] ->
+  itemLoop fuel doc n (rd ++ suf) il at' dn s = Ok ((nx, rd' ++ suf, il', at''), s').
+
+Lemma lists_suffix : forall n, Q_list n /\ Q_items n /\ Q_item n /\ Q_loop n.
+Proof.
+  induction n as [|n (IHl & IHs & IHi & IHo)].
+  { repeat split; intro; intros; discriminate. }
+  split; [|split; [|split]].
+  - (* renderList *)
+    intros it rd o nn rd' s s' H Hne. cbn [renderList] in *.
+    apply bind_Ok in H as (u & s1 & H1 & H). rewrite (bind_eq _ _ _ _ _ H1).
+    apply bind_Ok in H as (open & s2 & H2 & H). rewrite (bind_eq _ _ _ _ _ H2).
+    apply bind_Ok in H as ([[body nx] rd1] & s3 & H3 & H). cbv beta iota zeta in H.
+    apply bind_Ok in H as (u2 & s4 & H4 & H). inversion H; subst.
+    rewrite (bind_eq _ _ _ _ _ (IHs _ _ _ _ _ _ _ H3 Hne)). cbv beta iota zeta. rewrite (bind_eq _ _ _ _ _ H4). reflexivity.
+  - (* renderItems *)
+    intros it rd o nn rd' s s' H Hne. cbn [renderItems] in *.
+    apply bind_Ok in H as ([[out nx] rd1] & s1 & H1 & H). cbv beta iota zeta in H.
+    destruct nx as [nx|].
+    + destruct (str_eqb (it_id nx) (it_id it)) eqn:Eid.
+      * apply bind_Ok in H as ([[out2 n2] rd2] & s2 & H2 & H). cbv beta iota zeta in H. inversion H; subst.
+        assert (Hrd1 : rd1 <> []) by (intros ->; apply renderItems_nil_reader in H2; congruence).
+        rewrite (bind_eq _ _ _ _ _ (IHi _ _ _ _ _ _ _ H1 Hrd1)). cbv beta iota zeta.
+        rewrite Eid.
+        rewrite (bind_eq _ _ _ _ _ (IHs _ _ _ _ _ _ _ H2 Hne)). reflexivity.
+      * inversion H; subst. rewrite (bind_eq _ _ _ _ _ (IHi _ _ _ _ _ _ _ H1 Hne)). cbv beta iota zeta.
+        rewrite Eid. reflexivity.
+    + inversion H; subst. rewrite (bind_eq _ _ _ _ _ (IHi _ _ _ _ _ _ _ H1 Hne)). reflexivity.
+  - (* renderListItem *)
+    intros it rd o nn rd' s s' H Hne. cbn [renderListItem] in *.
+    apply bind_Ok in H as (hd & s1 & H1 & H). rewrite (bind_eq _ _ _ _ _ H1).
+    apply bind_Ok in H as (io & s2 & H2 & H). rewrite (bind_eq _ _ _ _ _ H2).
+    destruct (item_text it) as [first|]; [|discriminate].
+    apply bind_Ok in H as ([[[nx rd1] il] at1] & s3 & H3 & H). cbv beta iota zeta in H.
+    apply bind_Ok in H as (tx & s4 & H4 & H). inversion H; subst.
+    assert (Hrd : exists c r, rd = c :: r).
+    { destruct rd as [|c r]; [|eauto]. cbn [tl] in H3. apply itemLoop_nil_reader in H3. congruence. }
+    destruct Hrd as (c & r & ->). cbn [app tl] in *.
+    rewrite (bind_eq _ _ _ _ _ (IHo _ _ _ _ _ _ _ _ _ _ H3 Hne)). cbv beta iota zeta. rewrite (bind_eq _ _ _ _ _ H4). reflexivity.
+  - (* itemLoop *)
+    intros rd il at' dn nx rd' il' at'' s s' H Hne. cbn [itemLoop] in *.
+    apply bind_Ok in H as ([[blanks out] rd1] & s1 & H1 & H). cbv beta iota zeta in H.
+    destruct ((2 <=? blanks)%Z || (blanks =? -1)%Z) eqn:Eb.
+    { inversion H; subst. rewrite (bind_eq _ _ _ _ _ (cba_suffix _ _ _ _ _ _ _ _ _ H1 Hne)). cbv beta iota zeta. rewrite Eb. reflexivity. }
+    apply bind_Ok in H as ([ni rd2] & s2 & H2 & H). cbv beta iota zeta in H.
+    assert (Hrd1 : rd1 <> []).
+    { intros ->. pose proof (cba_eof _ _ _ _ _ _ _ _ _ H1 eq_refl) as Hb. subst blanks. cbn in Eb. discriminate. }
+    rewrite (bind_eq _ _ _ _ _ (cba_suffix _ _ _ _ _ _ _ _ _ H1 Hrd1)). cbv beta iota zeta. rewrite Eb.
+    destruct rd1 as [|c1 r1]; [congruence|]. cbn [app].
+    destruct (matchItem_suffix _ _ _ _ _ _ H2) as [H2' Hrd2]. rewrite (bind_eq _ _ _ _ _ H2'). cbv beta iota zeta.
+    destruct ni as [nx0|].
+    + apply bind_Ok in H as (io & s3 & H3 & H). rewrite (bind_eq _ _ _ _ _ H3).
+      destruct io.
+      * inversion H; subst. reflexivity.
+      * apply bind_Ok in H as ([[o3 n3] rd3] & s4 & H4 & H). cbv beta iota zeta in H. inversion H; subst.
+        rewrite (bind_eq _ _ _ _ _ (IHl _ _ _ _ _ _ _ H4 Hne)). reflexivity.
+    + destruct dn; [inversion H; subst; reflexivity|].
+      destruct rd2 as [|c2 r2]; [congruence|]. cbn [app].
+      destruct (blanks =? 0)%Z.
+      * apply bind_Ok in H as (sv & s3 & H3 & H). rewrite (bind_eq _ _ _ _ _ H3).
+        apply bind_Ok in H as (u & s4 & H4 & H). rewrite (bind_eq _ _ _ _ _ H4).
+        apply bind_Ok in H as ([od rd3] & s5 & H5 & H).
+        apply bind_Ok in H as (u2 & s6 & H6 & H).
+        destruct od as [out3|].
+        -- assert (Hrd3 : rd3 <> []) by (intros ->; apply itemLoop_nil_reader in H; congruence).
+           rewrite (bind_eq _ _ _ _ _ (dblocks_render_suffix _ _ _ _ _ _ _ H5 Hrd3)). rewrite (bind_eq _ _ _ _ _ H6).
+           apply IHo; assumption.
+        -- destruct rd3 as [|c3 r3]; [discriminate|].
+           assert (Hr3 : r3 <> []) by (intros ->; apply itemLoop_nil_reader in H; congruence).
+           rewrite (bind_eq _ _ _ _ _ (dblocks_render_suffix _ _ _ _ _ _ _ H5 ltac:(discriminate))). rewrite (bind_eq _ _ _ _ _ H6).
+           cbn [app]. apply IHo; assumption.
+      * destruct (blanks =? 1)%Z; [|discriminate].
+        apply bind_Ok in H as (sv & s3 & H3 & H). rewrite (bind_eq _ _ _ _ _ H3).
+        apply bind_Ok in H as (u & s4 & H4 & H). rewrite (bind_eq _ _ _ _ _ H4).
+        apply bind_Ok in H as ([od rd3] & s5 & H5 & H).
+        apply bind_Ok in H as (u2 & s6 & H6 & H).
+        destruct od as [out3|].
+        -- assert (Hrd3 : rd3 <> []) by (intros ->; apply itemLoop_nil_reader in H; congruence).
+           rewrite (bind_eq _ _ _ _ _ (dblocks_render_suffix _ _ _ _ _ _ _ H5 Hrd3)). rewrite (bind_eq _ _ _ _ _ H6).
+           apply IHo; assumption.
+        -- inversion H; subst.
+           rewrite (bind_eq _ _ _ _ _ (dblocks_render_suffix _ _ _ _ _ _ _ H5 Hne)). rewrite (bind_eq _ _ _ _ _ H6). reflexivity.
+Qed.
+
+Lemma lists_render_suffix n cur rest o rd2 s s' :
+  lists_render fuel doc n (cur :: rest) s = Ok ((o, rd2), s') -> rd2 <> [] ->
+  lists_render fuel doc n (cur :: rest ++ suf) s = Ok ((o, rd2 ++ suf), s').
+Proof.
+  unfold lists_render. intros H Hne. apply bind_Ok in H as ([r rd'] & s1 & Hm & H).
+  destruct (matchItem_suffix _ _ _ _ _ _ Hm) as [Hm' Hrd']. rewrite (bind_eq _ _ _ _ _ Hm').
+  destruct r as [it|]; [|inversion H; subst; reflexivity].
+  apply bind_Ok in H as (u & s2 & H2 & H). rewrite (bind_eq _ _ _ _ _ H2).
+  apply bind_Ok in H as ([[out nx] rdx] & s3 & H3 & H). cbv beta iota zeta in H.
+  apply bind_Ok in H as (ids & s4 & H4 & H). apply bind_Ok in H as (u2 & s5 & H5 & H). inversion H; subst.
+  rewrite (bind_eq _ _ _ _ _ (proj1 (lists_suffix n) _ _ _ _ _ _ _ H3 Hne)). cbv beta iota zeta.
+  rewrite (bind_eq _ _ _ _ _ H4). rewrite (bind_eq _ _ _ _ _ H5). reflexivity.
+Qed.
+
 End WithDoc.
 End Loc.
 
@@ -183,7 +357,7 @@ Section Doc.
 Variable fuel : nat.
 Variable doc : str -> M str.
 
-(* [k] blocks, each a line block or a delimited block, taken by the block loop from [rd] with loop fuel [n]:
+(* [k] blocks (line blocks, lists, delimited blocks) taken by the block loop from [rd] with loop fuel [n]:
    their concatenated output, what is left of the reader, the session, and the loop fuel left *)
 Inductive prefix_run : nat -> reader -> session -> str -> reader -> session -> nat -> Prop :=
 | pr_done n rd s : prefix_run n rd s [] rd s n
@@ -198,6 +372,12 @@ Inductive prefix_run : nat -> reader -> session -> str -> reader -> session -> n
     lists_render fuel doc n rd1 s1 = Ok ((None, rd2), s2) ->
     dblocks_render fuel doc rd2 [] s2 = Ok ((Some out, rd3), s3) ->
     prefix_run n rd3 s3 o rdk sk n' ->
+    prefix_run (S n) rd s (out ++ o) rdk sk n'
+| pr_list n rd l t rd1 out rd2 s s1 s2 o rdk sk n' :
+    skipBlankLines rd = l :: t ->
+    lineblocks_render fuel (l :: t) [] s = Ok ((None, rd1), s1) ->
+    lists_render fuel doc n rd1 s1 = Ok ((Some out, rd2), s2) ->
+    prefix_run n rd2 s2 o rdk sk n' ->
     prefix_run (S n) rd s (out ++ o) rdk sk n'.
 
 Definition then_loop (o : str) (r : Res (str * session)) : Res (str * session) :=
@@ -207,7 +387,10 @@ Definition then_loop (o : str) (r : Res (str * session)) : Res (str * session) :
 Theorem prefix_run_loop n rd s o rdk sk n' : prefix_run n rd s o rdk sk n' ->
   doc_loop fuel doc n rd s = then_loop o (doc_loop fuel doc n' rdk sk).
 Proof.
-  induction 1 as [n rd s|n rd l t out rd' s s1 o rdk sk n' Hs Hl _ IH|n rd l t rd1 rd2 out rd3 s s1 s2 s3 o rdk sk n' Hs Hl Hli Hd _ IH].
+  induction 1 as [n rd s|n rd l t out rd' s s1 o rdk sk n' Hs Hl _ IH|n rd l t rd1 rd2 out rd3 s s1 s2 s3 o rdk sk n' Hs Hl Hli Hd _ IH
+                 |n rd l t rd1 out rd2 s s1 s2 o rdk sk n' Hs Hl Hli _ IH].
+  4:{ cbn [doc_loop]. rewrite Hs. unfold bind at 1. rewrite Hl. unfold bind at 1. rewrite Hli. unfold bind, ret. rewrite IH. unfold then_loop.
+      destruct (doc_loop fuel doc n' rdk sk) as [[rest sx]| |]; [rewrite app_assoc|..]; reflexivity. }
   - unfold then_loop. destruct (doc_loop fuel doc n rd s) as [[rest sx]| |]; reflexivity.
   - rewrite (doc_loop_line_block fuel doc n rd l t out rd' s s1 Hs Hl), IH. unfold then_loop.
     destruct (doc_loop fuel doc n' rdk sk) as [[rest sx]| |]; [rewrite app_assoc|..]; reflexivity.
@@ -222,7 +405,7 @@ Proof.
 Qed.
 
 Lemma prefix_run_nil n o rdk sk n' s : prefix_run n [] s o rdk sk n' -> rdk = [].
-Proof. intros H. inversion H; subst; [reflexivity| |]; match goal with Hs : skipBlankLines [] = _ |- _ => cbn [skipBlankLines] in Hs; discriminate end. Qed.
+Proof. intros H. inversion H; subst; [reflexivity| | |]; match goal with Hs : skipBlankLines [] = _ |- _ => cbn [skipBlankLines] in Hs; discriminate end. Qed.
 
 Lemma lists_render_none_suffix suf n cur rest rd2 s s2 :
   lists_render fuel doc n (cur :: rest) s = Ok ((None, rd2), s2) ->
@@ -249,8 +432,16 @@ Proof. unfold lineblocks_render. apply lineblocks_loop_none_ne. Qed.
 Theorem prefix_run_suffix suf n rd s o rdk sk n' : prefix_run n rd s o rdk sk n' -> rdk <> [] ->
   prefix_run n (rd ++ suf) s o (rdk ++ suf) sk n'.
 Proof.
-  induction 1 as [n rd s|n rd l t out rd' s s1 o rdk sk n' Hs Hl Hrun IH|n rd l t rd1 rd2 out rd3 s s1 s2 s3 o rdk sk n' Hs Hl Hli Hd Hrun IH];
+  induction 1 as [n rd s|n rd l t out rd' s s1 o rdk sk n' Hs Hl Hrun IH|n rd l t rd1 rd2 out rd3 s s1 s2 s3 o rdk sk n' Hs Hl Hli Hd Hrun IH
+                 |n rd l t rd1 out rd2 s s1 s2 o rdk sk n' Hs Hl Hli Hrun IH];
     intros Hne.
+  4:{ assert (Hrd2 : rd2 <> []) by (intros ->; apply prefix_run_nil in Hrun; congruence).
+      pose proof (lineblocks_render_none_ne (l :: t) rd1 s s1 Hl ltac:(discriminate)) as Hrd1.
+      destruct rd1 as [|c1 r1]; [congruence|].
+      pose proof (lineblocks_render_suffix suf l t _ _ _ _ Hl ltac:(discriminate)) as Hl'.
+      pose proof (lists_render_suffix fuel suf doc n c1 r1 _ _ _ _ Hli Hrd2) as Hli'.
+      exact (pr_list n (rd ++ suf) l (t ++ suf) (c1 :: r1 ++ suf) out (rd2 ++ suf) s s1 s2 o (rdk ++ suf) sk n'
+               (skipBlankLines_suffix suf rd l t Hs) Hl' Hli' (IH Hne)). }
   - constructor.
   - assert (Hrd' : rd' <> []) by (intros ->; apply prefix_run_nil in Hrun; congruence).
     pose proof (lineblocks_render_suffix suf l t _ _ _ _ Hl Hrd') as Hl'.
@@ -270,8 +461,8 @@ Corollary first_blocks_independent suf n rd s o rdk sk n' : prefix_run n rd s o 
   doc_loop fuel doc n (rd ++ suf) s = then_loop o (doc_loop fuel doc n' (rdk ++ suf) sk).
 Proof. intros H Hne. apply prefix_run_loop. apply prefix_run_suffix; assumption. Qed.
 
-(* C14: a document A that ends in blank lines which none of its blocks reaches into (so: no unterminated block, no
-   list at its end), followed by B, renders in one call as A renders and then B renders from the session A left *)
+(* C14: a document A that ends in blank lines which none of its blocks reaches into (so: no unterminated block, and
+   no list at its end -- a list reads on over blank lines to the end of A), followed by B, renders in one call as A renders and then B renders from the session A left *)
 Definition all_blank (rd : reader) : Prop := skipBlankLines rd = [].
 
 Lemma skip_all_blank rd lb : all_blank rd -> skipBlankLines (rd ++ lb) = skipBlankLines lb.
